@@ -7,7 +7,7 @@ def repo_commits(prefix):
     return [l.split()[0] for l in out.splitlines() if l.split(" ", 1)[1].startswith(prefix)]
 
 CHECKS = {
- "C01": ("differential proptest vs independent reference move generator (walks, constructive themes, two-ply)",
+ "C01": ("differential proptest vs independent reference move generator (walks, constructive themes, two-ply); exhaustive enumeration of all 107 648 slider line occupancy patterns through the move generator",
          "Generated legal positions (repository FENs, constructive e.p./pin/check/castling/promotion themes, random placements, weighted walks) are compared pointwise with an independent mailbox implementation of the rules: move set, flags, check verdict, staged vs one-shot generation. Exploration: held on everything generated; no absence claim.",
          "Trusted: the reference model in harness/src/refchess.rs (self-tested against published perft totals at every run); positions are statically legal by the property's definition plus promotion-feasible material and a one-move-reachable e.p. state.", "3/C01"),
  "C02": ("model-based proptest over make/null/undo histories against the reference model, field-by-field snapshots",
@@ -19,52 +19,52 @@ CHECKS = {
  "C04": ("proptest over search sessions (positions x limits x hash sizes x earlier searches), panic/termination/legality oracle, in checked and optimised profiles",
          "Lists of searches on one PersistentState with depth, movetime and clock limits, hash 0..16(64) MB, forced-mate themes so that scores jump to mate under the aspiration window, and 300-search sessions; every search must return, not panic (overflow, index and debug assertions are panics in the checked profile) and give a reference-legal move. Repeated in the optimised profile.",
          "Trusted: reference model for legality; a per-case watchdog re-runs a slow case alone before calling it non-terminating. Time-limited cases depend on the wall clock (their oracle does not). Lines >= 250 plies and Syzygy paths are out of generated reach.", "3/C04"),
- "C05": ("generated UCI command sessions with generated timings and injected delays against the shipped binary; blocked-process liveness oracle",
+ "C05": ("generated UCI command sessions with generated timings and injected delays against the shipped binary; blocked-process liveness oracle; randomized two-thread stress of the completion latch (reset/set/wait hand-overs with generated jitter)",
          "Conforming command histories with generator-chosen timing (same write, after n ms, right after bestmove) and per-session delays at six hook points of the go/stop/ucinewgame paths; model of owed answers (readyok per isready, exactly one bestmove per go, exit 0 after quit). A missing answer is a violation only when /proc shows the process blocked. Schedules are sampled, not enumerated.",
          "Trusted: Linux /proc task states; hook H2 delays only select schedules the unmodified program already has. Liveness is approximated by deadlines plus the blocked test.", "3/C05"),
- "C06": ("round-trip proptest from reader-independent positions, systematic corruption grammar, FEN-shaped and arbitrary strings, independent board-field tokeniser; libFuzzer target in thorough",
+ "C06": ("round-trip proptest from reader-independent positions, systematic corruption grammar, FEN-shaped and arbitrary strings, independent board-field tokeniser; libFuzzer target in thorough; round trip of positions reached by play",
          "write/parse round trips on positions built without the reader (clocks and move numbers up to 2^31-1) against the reference FEN text; hostile text from systematic corruptions, FEN-shaped regexes and arbitrary Unicode: never a panic, wrong rank widths rejected, accepted placements equal an independent tokeniser's decoding.",
          "Trusted: reference FEN writer and the harness tokeniser.", "3/C06"),
  "C07": ("exhaustive enumeration of all 107,648 relevant blocker subsets (+ noise on irrelevant bits), leapers and between table against coordinate geometry; checked-build bounds",
          "Complete enumeration of the slider tables over every subset of each square's relevant mask, each with noise patterns on irrelevant bits, all knight/king/pawn entries and all 64x64 between entries, against ray walks written in the harness; plus random 64-bit occupancies. Out-of-range unchecked indices abort in the checked build and are reported.",
          "Trusted: the coordinate ray-walk oracle in harness/src/props/c07.rs; rustc's debug-assertions UB checks for get_unchecked.", "3/C07"),
- "C08": ("proptest over depth-limited searches with a recording Reporter; PV legality and mate-announcement oracle via the reference model",
+ "C08": ("proptest over depth-limited searches with a recording Reporter; PV legality and mate-announcement oracle via the reference model; deep searches (depth 15-19) of sparse mating endings and all 255 iterations on dead-draw material",
          "Every SearchInfo of generated searches (mate themes for and against the mover, table contents from parent/child/sibling searches, small tables): depths 1,2,3.. within the limit, non-empty PV of reference-legal moves, Mate(n) with exactly matching length ending in checkmate of the right side.",
          "Trusted: reference model. Tablebase PV path unreachable without Syzygy files.", "3/C08"),
- "C09": ("stop injection at every poll index via hook H1 (enumerated per search up to 24, sampled above), poll-count equality, follow-up search oracle; real Control::stop from another thread",
+ "C09": ("stop injection at every poll index via hook H1 (enumerated per search up to 24, sampled above), poll-count equality, follow-up search oracle; real Control::stop from another thread; the position where the stop was observed (hook H3) is searched next on the same tables",
          "For each generated search the number N of stop-flag polls is measured, then the search is repeated with the flag reading true from poll k on, for all k (N <= 24) or 16 chosen k: legal move, polls == k (nothing examined after the stop), reported lines valid, game untouched, follow-up search on the same tables valid.",
          "Trusted: hook H1 (thread-local countdown consulted where the flag is loaded); poll points are those of the real 10,000-node schedule.", "3/C09"),
  "C10": ("proptest over (position, hash move, killer/counter/history table contents, ply) with permutation oracle against engine list and reference set",
          "The full picker stream must be a permutation of the legal moves with the hash move first, for generated killer pairs, counter moves (legal here, legal elsewhere, arbitrary), history scores and plies 0..254; the captures-only stream a duplicate-free legal subset containing every capture and queen promotion.",
          "Trusted: reference model; table contents are installed through the engine's own try_push/set/add_bonus_for (reachable contents only).", "3/C10"),
- "C11": ("model-based proptest over game histories with shuffle bias; repetition / fifty-move / dead-material verdicts against the reference's own history list",
+ "C11": ("model-based proptest over game histories with shuffle bias; repetition / fifty-move / dead-material verdicts against the reference's own history list; search-level oracles (a drawing reply bounds the score at 0, every-reply-draws means exactly 0, no history draw stored in the shared table)",
          "After every move of generated games (FEN roots with clocks around 100, shuffling to force repetitions, rights/e.p. spoilers) the three draw predicates are compared with the reference's own scan of earlier positions; with search-like null moves only the direction 'true => exists' is asserted.",
          "Trusted: reference identity and clock.", "3/C11"),
- "C12": ("trace-equality proptest: same prepared state twice, reset vs fresh, in both profiles under load; ucinewgame session vs fresh process on the shipped binary",
+ "C12": ("trace-equality proptest: same prepared state twice, reset vs fresh, in both profiles under load; ucinewgame session vs fresh process on the shipped binary; 255-512 search sessions and Hash resize before reset",
          "Identical preparation must give identical traces (every reported field and the best move); reset() after arbitrary earlier searches must equal a fresh state; on the binary, a session with ucinewgame must print the same lines (minus time/nps) as a fresh process.",
          "Trusted: nothing beyond the engine itself (metamorphic). Bench comparison only in thorough.", "3/C12"),
- "C13": ("generated setoption/isready/position/go sessions over the ranges parsed from the engine's own uci answer; in-process resize twin",
+ "C13": ("generated setoption/isready/position/go sessions over the ranges parsed from the engine's own uci answer; in-process resize twin; exhaustive grid of Move Overhead x clocks in-process; time-limited searches at the smallest Hash",
          "Option ranges are read from the 'uci' answer; sessions set boundary and interior values in any order between searches; every isready answered, every go answered by a reference-legal bestmove, clean exit.",
          "Trusted: reference model for legality. 1024 MB sessions run at most 6 at a time.", "3/C13"),
- "C14": ("exhaustive grid + random tuples through the limits accessor (hook H1) with f32 tolerance; go-parser field oracle; wall-clock measurements with 3x solo confirmation",
+ "C14": ("exhaustive grid + random tuples through the limits accessor (hook H1) with f32 tolerance; go-parser field oracle; wall-clock measurements with 3x solo confirmation; per-node clock gate driven with node counters around 2^16..2^40; wall clock late in long sessions on large tables, with depth limits and fixed move times",
          "hard <= (remaining-overhead)/2 and soft <= hard on a 64,512-tuple grid and 10^6 random tuples; movetime used as given; go arguments land in their fields; on the binary the time from go to bestmove stays below the remaining time (an overrun must repeat in three solo re-runs to count).",
          "Trusted: hook accessor returns the fields the search uses; tolerance 2^-20 relative + 1 us for f32 arithmetic. The wall-clock half is statistical.", "3/C14"),
  "C15": ("proptest histories; incremental accumulators vs IncrementalEvalFields::init and eval path independence after every op",
          "After every make / null / take-back the phase counter and piece-square accumulator must equal recomputation from the board, and eval(game) must equal eval of the rebuilt position.",
          "Trusted: the engine's own from-scratch computation as the oracle for the incremental one (differential within the code).", "3/C15"),
- "C16": ("metamorphic proptest (mirror twins), blend-interval oracle via forced phase, exhaustive-ish triples for PhasedEval::for_phase",
+ "C16": ("metamorphic proptest (mirror twins), blend-interval oracle via forced phase, exhaustive-ish triples for PhasedEval::for_phase; constructed pairs of legal positions whose keys agree on 32-64 chosen bits (GF(2) elimination over the key words) evaluated back to back; games taken back from 1100+ plies",
          "eval(P) == eval(mirror P), not a mate score, within [mg, eg] obtained by forcing the phase field; blend triples over mg, eg in +-20000 and phase 0..88.",
          "Trusted: reference mirror; pub phase field to obtain pure middlegame/endgame values.", "3/C16"),
- "C17": ("generated legal games sent as 'position ... moves ...' to the shipped binary; FEN dump, reply set and bestmove against the reference model; parser twin",
+ "C17": ("generated legal games sent as 'position ... moves ...' to the shipped binary; FEN dump, reply set and bestmove against the reference model; parser twin; cases preceded by a position command whose start position has the same 64-bit key (constructed collision)",
          "Games of up to 250 plies with castling, e.p. and all promotion pieces; after the position command the engine's FEN dump, its perftdiv 1 move set and its depth-1 bestmove must match the reference final position.",
          "Trusted: reference model incl. the recorded-e.p. convention for the FEN dump.", "3/C17"),
  "C18": ("proptest over every legal move of tactical positions; uniqueness, reference SAN body/suffix and read-back oracle",
          "format_move must be unique among the legal moves, equal the reference SAN body, carry a check/mate suffix exactly when the move checks, and parse_move must return the same move.",
          "Trusted: reference SAN writer (FIDE C.10 minimal disambiguation).", "3/C18"),
- "C19": ("model-based proptest over insert/probe/new-search/reset/resize with colliding keys; admissible-set model with true search counter; known-finding classification by an aliasing model",
+ "C19": ("model-based proptest over insert/probe/new-search/reset/resize with colliding keys; admissible-set model with true search counter; known-finding classification by an aliasing model; 128-520 MB tables with keys in edge slots; engine reset path after 1-513 real searches",
          "The table is driven next to a model that keeps, per slot, the set of entries the statement admits; probes narrow the set; statistics and emptiness after reset/resize are exact. Discrepancies explained exactly by 8-bit age aliasing are the listed known finding; anything else is a violation.",
          "Trusted: calculate_number_of_entries for the slot layout (size 0: weak oracle).", "3/C19"),
- "C20": ("metamorphic (mirror) + rule oracles + independent branching swap-list minimax over every legal capture of tactical positions",
+ "C20": ("metamorphic (mirror) + rule oracles + independent branching swap-list minimax over every legal capture of tactical positions; constructed key-collision pairs containing the same capture with different verdicts; piece values probed from the engine",
          "see(m, 0) must be mirror-invariant, true on undefended targets and when victim >= attacker, and equal an independent swap-list minimax whenever all tie-break branches agree.",
          "Trusted: the harness swap-list (values 100/300/300/500/900, pins ignored, king captures only when undefended).", "3/C20"),
 }
